@@ -212,6 +212,7 @@ func (c *fakeConn) SetReadDeadline(time.Time) error  { return nil }
 func (c *fakeConn) SetWriteDeadline(time.Time) error { return nil }
 
 type dhcpCfg struct {
+	expired    bool // pool lease time is negative: every lease is already expired when the cleanup tick looks at it
 	mgrs       bool // QoS manager (with a policy manager) and NAT manager with one public address configured
 	nopool     bool // pool manager without any pool
 	loader     bool
@@ -231,7 +232,7 @@ func newDHCP(c dhcpCfg) (*dhcp.Server, *fakeConn) {
 	}
 	pm := dhcp.NewPoolManager(ld, nop)
 	pool, err := dhcp.NewPool(dhcp.PoolConfig{ID: 1, Name: "p", Network: "10.0.1.0/24", Gateway: "10.0.1.1", DNSServers: []string{"8.8.8.8"},
-		LeaseTime: time.Hour, ClientClass: dhcp.ClientClassResidential, ReservedStart: 10})
+		LeaseTime: map[bool]time.Duration{false: time.Hour, true: -time.Hour}[c.expired], ClientClass: dhcp.ClientClassResidential, ReservedStart: 10})
 	if err != nil {
 		panic(err)
 	}
